@@ -123,3 +123,12 @@ CHECKS['C03'] = dict(_RULES, title='Every command line that obeys the declared r
     level_text='every abstract line the evaluator calls valid, for every rule configuration and 3 (thorough 5) bystander variants, in every spelling with <= 1/2 deviations: evalArguments must return and leave the evaluator\'s values',
     rule='as C02 with the valid lines; bystander variants add unused arguments with own checks/constraints/hidden/deprecated flags and long keys that extend or are prefixes of used keys',
     assumptions=['order-sensitive rules are judged as documented (excluded argument before its excluder is valid; required partner only before the requirer is unspecified and skipped)'])
+
+CHECKS['C05'] = dict(title='A key designates exactly one argument, independent of definition order', engine='xenum',
+    harness=['harness/c05_keys.cpp'], flags='asan', lib=True, level='model_checking', deadline={'quick': 240, 'thorough': 2400}, hang_s=60,
+    technique='bounded-exhaustive enumeration of all key-specification sequences (= sets in every definition order) x every exact key and prefix lookup, against a set model',
+    level_text='all sequences of <= 3 (quick) / <= 4 (thorough) key specifications from a pool of 14 with prefix-related long keys, abbreviations on and off: every definition compared with the set model (refuse iff short or long key taken), then every exact key and every prefix of every long key looked up on the real handler',
+    level_note='trusts the 4-line set model; pool of 2 short and 4 long keys; one-character prefixes are outside (the library reads --x as the short key x)',
+    rule='sequence of key specs (odometer, all orders) x written variant (dash count, order of short/long) x abbreviations; per accepted set one evaluation per exact key and per prefix; states = sequences, transitions = addArgument + evalArguments calls',
+    bound={'quick': 'sequences of <= 3 specifications', 'thorough': 'sequences of <= 4 specifications'},
+    assumptions=['every lookup uses a fresh handler with the same definitions (a handler is evaluated once)'])
